@@ -85,7 +85,9 @@ func (p *Pool) take() (x any, ok bool) {
 		return x, true
 	}
 	x = p.items[0] // oldest first (the item migrated through the shared queue)
-	copy(p.items[:], p.items[1:p.n])
+	for i := 1; i < p.n; i++ { // not copy(): the runtime's slice copy reports to the race detector whatever the caller is marked
+		p.items[i-1] = p.items[i]
+	}
 	p.n--
 	p.items[p.n] = nil
 	return x, true
